@@ -169,3 +169,14 @@ type ReplayFile struct {
 	RaceReport   string      `json:"race_report,omitempty"`
 	Note         string      `json:"note,omitempty"`
 }
+
+// Names of operations (index = Op.K) and of object kinds (index = ObjSpec.Kind).
+var opNames = [...]string{"none", "Marshal", "MarshalSafe", "MarshalSize", "DestinationSSRC", "String", "Fmt%v", "Fmt%+v",
+	"Unmarshal(typed)", "rtcp.Unmarshal", "Compound.Unmarshal", "rtcp.Marshal", "rtcp.MarshalSafe", "Unit",
+	"Header", "Len", "Validate", "CNAME", "MarshalTo", "NackHelpers", "BlockDestinationSSRC",
+	"pick", "send", "recv", "mutate", "corrupt"}
+
+var kindNames = [...]string{"SenderReport", "ReceiverReport", "SourceDescription", "Goodbye", "ApplicationDefined",
+	"TransportLayerNack", "RapidResynchronizationRequest", "TransportLayerCC", "CCFeedbackReport",
+	"PictureLossIndication", "SliceLossIndication", "ReceiverEstimatedMaximumBitrate", "FullIntraRequest",
+	"ExtendedReport", "RawPacket", "CompoundPacket"}
